@@ -26,7 +26,8 @@ RULE = ("seeded generator of in-memory charts built from objects: each of the fi
         "lines, integer / <=3-decimal / long-decimal tempos, rows possibly unsorted), hits and holds in any columns of the "
         "layout at on-grid times (every denominator <= 96) and arbitrary off-grid times, adjacent grid slots, several objects "
         "per measure and channel with different denominators (LCM grouping below and above 100), known / unknown / empty "
-        "samples, custom LNOBJ and default ids, str and bytes header fields, misc headers; plus out-of-domain cases (measure "
+        "samples, custom LNOBJ and default ids, str and bytes header fields, misc headers; 30% of the charts (every layout) are written with "
+        "BMSMap.write_file to a temporary file and the bytes read back from disk, the rest with BMSMap.write; plus out-of-domain cases (measure "
         ">= 1000, unknown column, too many tempo points); a case is non-trivial when it has >= 2 objects; distinct by hash of "
         "the canonical JSON of the input")
 ASSUMPTIONS = [
@@ -243,7 +244,9 @@ def generate(rng, tier):
     cases = []
     for i in range(n):
         lname = LAYOUTS[i % 5] if i < 50 else rng.choice(LAYOUTS)
-        cases.append(gen_chart(rng, lname, rng.random() < 0.55))
+        cs = gen_chart(rng, lname, rng.random() < 0.55)
+        cs["via_file"] = rng.random() < 0.3              # through BMSMap.write_file (every layout) instead of BMSMap.write
+        cases.append(cs)
     if tier != "quick":
         for nb in (300, 1295):                           # many tempo points (quadratic in Coq); 1295 trips the writer's assert
             cases.append({"layout": "BME", "exact": True, "dflt": "01", "lnobj": "ZZ", "hits": [[[250, 1], 0, ""]], "holds": [],
@@ -279,7 +282,17 @@ def execute(case):
         m.version = enc(case["version"])
         m.misc = {enc(k): enc(v) for k, v in case["misc"]}
         try:
-            b = m.write(R._layout(case["layout"]), no_sample_default=enc(case["dflt"]))
+            if case.get("via_file"):
+                # BMSMap.write_file: the same bytes through a file; the layout and the default id must be forwarded
+                import os
+                import tempfile
+                with tempfile.TemporaryDirectory() as td:
+                    path = os.path.join(td, "chart.bms")
+                    m.write_file(path, R._layout(case["layout"]), no_sample_default=enc(case["dflt"]))
+                    with open(path, "rb") as f:
+                        b = f.read()
+            else:
+                b = m.write(R._layout(case["layout"]), no_sample_default=enc(case["dflt"]))
         except (KeyError, IndexError, AssertionError, ValueError, ZeroDivisionError) as e:
             return {"v": None, "exc": type(e).__name__ + ": " + str(e)[:100]}
         text = b.decode("shift_jis")
@@ -327,6 +340,7 @@ def bucket(case, out):
     k += "/bpms=%d" % min(4, len(case["bpms"]))
     k += "/holds" if case["holds"] else ""
     k += "/3f" if _long_decimals(case) else ""
+    k += "/file" if case.get("via_file") else ""
     if out.get("v") is None:
         k += "/exc"
     return k
